@@ -392,10 +392,10 @@ class GmpyInvert(_Backend):
     module = "pysnark.gmpy"
 
     def configs(self, tier):
-        return [dict(prime=n) for n in ("bn254", "bls12_381", "curve25519")]
+        return [dict(prime=n) for n in ("bn254", "bls12_381", "curve25519")] + [dict(m=2), dict(m=7)]
 
     def setup(self, c, cfg):
-        p = gh.PRIMES[cfg["prime"]]
+        p = cfg.get("m") or gh.PRIMES[cfg["prime"]]
         cur().p = p
         c.g.p = p
         self._p = p
